@@ -8,7 +8,8 @@ From PV Require Import Base.MachineInt Model.C16Meta Model.C16Spec Proofs.C16Pro
 Open Scope Z_scope.
 
 (* State of /repo: after the repairs fd924ce (ct x ct scale), 3326e5c (rescale_into), e31e2c8 (mul_pt base2k),
-   84cafa8 (constant digits), b042dad (set_meta_checked), 628058f (_into forms check the budget first).
+   84cafa8 (constant digits), b042dad (set_meta_checked), 628058f (_into forms check the budget first),
+   18a4236 (dot_product_ct scale), 1a5cef0 (add_many / mul_many single input), 45bddf7 (OperandNotCompact).
    Hypotheses: base2k >= 1; operands `good` (log_delta + log_budget <= limbs * base2k < 2^62); caller scalars are
    arbitrary usize values (`wf_op`). *)
 
@@ -31,29 +32,21 @@ Proof. exact fail_keeps_good. Qed.
 Print Assumptions C16_fail_keeps_invariant.
 
 (* under the code's own branch guards no usize subtraction / addition leaves the usize range and no limb index is
-   out of range, in either build profile, for every admissible call except products of ciphertexts that are not
-   stored compactly (the remaining known class) *)
+   out of range: no admissible call panics, in either build profile *)
 Theorem C16_no_underflow :
   forall (chk : bool) (B : Z) (o : op) (d a b : ct),
     1 <= B -> wf_op B o -> good B d -> good B a -> good B b ->
-    admissible B o d a -> ~ k3_product_of_noncompact B o d a b ->
+    admissible B o d a ->
     meta_step chk B o d a b <> Panic.
 Proof. exact no_panic. Qed.
 Print Assumptions C16_no_underflow.
-
-Theorem C16_no_underflow_refuted_product_noncompact :
-  exists (B : Z) (d a : ct),
-    1 <= B /\ good B d /\ good B a /\ admissible B OSquareInto d a /\
-    meta_step true B OSquareInto d a a = Panic /\ meta_step false B OSquareInto d a a = Panic.
-Proof. exact product_noncompact_panics_refuted. Qed.
-Print Assumptions C16_no_underflow_refuted_product_noncompact.
 
 (* totality: the call returns Err(kind) exactly when the closed-form algebra `spec_step` says so, Ok with exactly
    the documented metadata and limb count otherwise, and never a third outcome *)
 Theorem C16_error_iff :
   forall (chk : bool) (B : Z) (o : op) (d a b : ct),
     1 <= B -> wf_op B o -> good B d -> good B a -> good B b ->
-    admissible B o d a -> ~ k3_product_of_noncompact B o d a b ->
+    admissible B o d a ->
     outcome_matches (meta_step chk B o d a b) (spec_step B o d a b).
 Proof. exact error_iff. Qed.
 Print Assumptions C16_error_iff.
@@ -75,14 +68,13 @@ Theorem C16_composite_meta_never_exceeds :
 Proof. exact comp_never_exceeds. Qed.
 Print Assumptions C16_composite_meta_never_exceeds.
 
-(* the single-input forms of add_many / mul_many still assign the metadata before the budget check (known class) *)
-Theorem C16_composite_fail_keeps_invariant_refuted :
-  exists (B : Z) (d a : ct) (e : ekind) (m : meta),
-    1 <= B /\ good B d /\ good B a /\
-    comp_step true B CAddMany d [a] [] = Fail e m /\ comp_step true B CMulMany d [a] [] = Fail e m /\
-    maxk B d < eff m.
-Proof. exact many_single_input_stale_refuted. Qed.
-Print Assumptions C16_composite_fail_keeps_invariant_refuted.
+(* ... and so does every Err of a composite *)
+Theorem C16_composite_fail_keeps_invariant :
+  forall (chk : bool) (B : Z) (c : comp) (d : ct) (xs ys : list ct) (e : ekind) (m : meta),
+    1 <= B -> good B d -> Forall (good B) xs -> Forall (good B) ys ->
+    comp_step chk B c d xs ys = Fail e m -> good B (Ct m (csize d)).
+Proof. exact comp_fail_keeps_good. Qed.
+Print Assumptions C16_composite_fail_keeps_invariant.
 
 (* ---- values over the exact phase model (Proofs/C16Value.v): the shifts handed to the GLWE layer make the
         resulting metadata tell the truth about the value = phase * 2^log_budget ---- *)
@@ -134,17 +126,22 @@ Theorem C16_value_mul_into :
 Proof. exact value_mul_into. Qed.
 Print Assumptions C16_value_mul_into.
 
-(* ... and that the fused path of ckks_dot_product_ct still violates (known class) *)
-Theorem C16_value_dot_product_ct_refuted :
-  exists (B : Z) (d x y : ct) (m : meta) (sz : Z) (c : Z),
-    comp_step true B CDotCt d [x; x] [y; y] = Done m sz [c] /\ c + lb m <> lb (cm x) + lb (cm y).
-Proof. exact dot_ct_scale_refuted. Qed.
-Print Assumptions C16_value_dot_product_ct_refuted.
+(* ... and the same for the fused path of ckks_dot_product_ct (repaired in 18a4236) *)
+Theorem C16_value_dot_product_ct_fused :
+  forall (chk : bool) (B : Z) (d x0 y0 : ct) (q : ct * ct) (rest : list (ct * ct)) (xs ys : list ct)
+         (m : meta) (sz : Z) (sh : list Z),
+    combine xs ys = (x0, y0) :: q :: rest ->
+    (zlen xs =? 0) || negb (zlen xs =? zlen ys) = false ->
+    forallb (fun c => ld_of c =? ld_of x0) xs && forallb (fun c => ld_of c =? ld_of y0) ys = true ->
+    comp_step chk B CDotCt d xs ys = Done m sz sh ->
+    fold_right Z.add 0 sh + lb m = min_over lb_of xs + min_over lb_of ys /\ ld m = Z.min (ld_of x0) (ld_of y0).
+Proof. exact dot_ct_fused_offset. Qed.
+Print Assumptions C16_value_dot_product_ct_fused.
 
 (* the hypotheses are satisfiable *)
 Example C16_example_step :
   let B := 19 in let d := Ct (Meta 0 0) 6 in let a := c8 30 122 in
-  1 <= B /\ wf_op B ONegInto /\ good B d /\ good B a /\ admissible B ONegInto d a /\ ~ known_panic B ONegInto d a a /\
+  1 <= B /\ wf_op B ONegInto /\ good B d /\ good B a /\ admissible B ONegInto d a /\
   meta_step true B ONegInto d a a = Done (Meta 30 84) 6 [38].
 Proof. exact example_step. Qed.
 
@@ -154,7 +151,8 @@ Example C16_example_repaired :
   meta_step true 19 (OCstRnxAssign (Meta 50 0) false) (Ct (Meta 30 8) 2) (c8 0 0) (c8 0 0) = Fail EAlign (Meta 30 8) /\
   meta_step true 19 ONegInto (Ct (Meta 0 0) 1) (c8 30 122) (c8 30 122) = Fail ECapacity (Meta 0 0) /\
   meta_step false 19 (ODivPow2Into (two64 - 1)) (Ct (Meta 0 0) 7) (c8 30 122) (c8 30 122) = Fail ECapacity (Meta 0 0) /\
-  meta_step false 19 (OSetMeta (Meta (two64 - 1) 2)) (Ct (Meta 0 0) 7) (c8 0 0) (c8 0 0) = Fail EShrink (Meta 0 0).
+  meta_step false 19 (OSetMeta (Meta (two64 - 1) 2)) (Ct (Meta 0 0) 7) (c8 0 0) (c8 0 0) = Fail EShrink (Meta 0 0) /\
+  meta_step true 19 OSquareInto (Ct (Meta 0 0) 8) (c8 30 92) (c8 30 92) = Fail ENotCompact (Meta 0 0).
 Proof. exact example_repaired. Qed.
 
 Example C16_example_program :
